@@ -384,6 +384,20 @@ class SqlImpl(TableImpl):
                     else:
                         needed_cols[node._uuid] = cnt + 1
 
+            union_cols: list[UUID] = []
+            if isinstance(nd, verbs.Union) and nd.distinct:
+                # UNION removes duplicates over *all* columns of its operands: none of them
+                # may be pruned from a subquery below, whatever later verbs use.
+                from pydiverse.transform._internal.pipe.cache import Cache
+
+                union_cols = [
+                    col._uuid
+                    for operand in (nd.child, nd.right)
+                    for col in Cache.from_ast(operand).selected_cols()
+                ]
+                for uid in union_cols:
+                    needed_cols[uid] = needed_cols.get(uid, 0) + 1
+
             table, query, sqa_expr = cls.compile_ast(nd.child, needed_cols)
 
         if isinstance(nd, verbs.Mutate | verbs.Summarize):
@@ -609,6 +623,12 @@ class SqlImpl(TableImpl):
                         del needed_cols[node._uuid]
                     else:
                         needed_cols[node._uuid] = cnt - 1
+
+            for uid in union_cols:
+                if needed_cols[uid] == 1:
+                    del needed_cols[uid]
+                else:
+                    needed_cols[uid] -= 1
 
         return table, query, sqa_expr
 
